@@ -583,9 +583,8 @@ class Strh(ArmInstruction):
             offset = self.imm
             u = 1
 
-        tokens[0][0:4] = offset & 0xF
+        tokens[0].imm4h_imm4l = offset
         tokens[0][4:8] = 0b1011
-        tokens[0][8:12] = (offset >> 4) & 0xF
         tokens[0][20] = 0
         tokens[0][21] = 0  # W
         tokens[0][22] = 1
